@@ -318,23 +318,65 @@ def r12_4(ctx, rep):
 
 def r12_5(ctx, rep):
     prog = ctx.prog
+    from .. import symexec as SX0
+    from ..core import strip_docstring as _sd
     for name, conv in (("floatnum", {"float"}), ("number", {"int", "float"})):
         f = prog.fn(f"scanner.Scanner.{name}")
-        convs = [x for x in calls_in(f.node) if dotted(x.func) in ("int", "float")]
-        ok = {dotted(x.func) for x in convs} == conv and all(unparse(x.args[0]) == "self.code[self.start:self.current]" for x in convs)
-        obl(rep, f, f.node, "R12.5", ok, f"{name}: the literal is {sorted(conv)}(<the lexeme>)", "", f"{name} converts {[short(x) for x in convs]}")
+        try:
+            ex0 = SX0.SymExec().run(_sd(f.node.body))
+        except AnalysisError as e:
+            rep.defer(f"R12.5: Scanner.{name}: {e}")
+            continue
+        adds0 = [e for e in ex0.effects if e[0] == "call" and e[1][0] == "self.add_token" and len(e[1][1]) == 2]
+        leaves = []
+
+        def collect(v):
+            if isinstance(v, SX0.Ite):
+                collect(v.a)
+                collect(v.b)
+            else:
+                leaves.append(SX0.render(v))
+
+        for e in adds0:
+            collect(e[1][1][1])
+        want = {f"{c}(self.code[self.start:self.current])" for c in conv}
+        ok = bool(adds0) and set(leaves) == want
+        obl(rep, f, f.node, "R12.5", ok, f"{name}: the literal is {sorted(conv)}(<the lexeme>)", "", f"{name} converts {sorted(set(leaves))}")
     f = prog.fn("scanner.Scanner.number")
-    # is_float decides which conversion
-    ifs = [i for i in walk_local(f.node) if isinstance(i, ast.If) and unparse(i.test) == "is_float"]
-    ok = len(ifs) == 1 and "float(" in unparse(ifs[0].body[0]) and "int(" in unparse(ifs[0].orelse[0])
-    obl(rep, f, ifs[0] if ifs else f.node, "R12.5", ok, "a fractional part selects float, otherwise int")
+    # the conversion is float exactly on the paths that consumed a '.', decided on the symbolic value handed to add_token
+    from .. import symexec as SX
+    from ..core import strip_docstring
+    try:
+        ex = SX.SymExec().run(strip_docstring(f.node.body))
+        adds = [e for e in ex.effects if e[0] == "call" and e[1][0] == "self.add_token"]
+        lex = "self.code[self.start:self.current]"
+        ok = len(adds) == 1 and adds[0][2] == () and len(adds[0][1][1]) == 2
+        v = adds[0][1][1][1] if ok else None
+        dots = [e for e in ex.effects if e[0] == "call" and e[1][0] == "self.advance" and e[2]]
+        okc = False
+        if ok and isinstance(v, SX.Ite) and dots:
+            consumed = {c for e in dots for c in e[2] if c[1] is True}
+            conds = {c[0] for c in consumed}
+            okc = (v.a == SX.Opaque(f"float({lex})") and v.b == SX.Opaque(f"int({lex})") and v.cond in conds) or \
+                  (v.b == SX.Opaque(f"float({lex})") and v.a == SX.Opaque(f"int({lex})") and any(v.cond == f"not ({c})" for c in conds))
+            okc = okc and all("'.'" in c for c in conds if c == v.cond or v.cond == f"not ({c})")
+        obl(rep, f, f.node, "R12.5", ok and okc, "a fractional part selects float, otherwise int",
+            SX.render(v) if v is not None else "", f"NUMBER literal is `{SX.render(v) if v is not None else '?'}`")
+    except AnalysisError as e:
+        rep.defer(f"R12.5: Scanner.number: {e}")
     f = prog.fn("scanner.Scanner.identifier")
     tests = [i for i in walk_local(f.node) if isinstance(i, ast.If) and isinstance(i.test, ast.Compare) and isinstance(i.test.ops[0], ast.In)]
     ok = len(tests) == 1 and isinstance(tests[0].test.comparators[0], (ast.Tuple, ast.List, ast.Set)) and \
         sorted(e.value for e in tests[0].test.comparators[0].elts) == ["False", "None", "True"]
+    if not ok and len(tests) == 1 and isinstance(tests[0].test.comparators[0], ast.Dict):
+        # membership in the very table that maps the spelling to the constant
+        d = tests[0].test.comparators[0]
+        ok = all(isinstance(k, ast.Constant) and isinstance(v, ast.Constant) and repr(v.value) == k.value for k, v in zip(d.keys, d.values)) \
+            and sorted(k.value for k in d.keys) == ["False", "None", "True"]
     if ok:
         add = [x for x in calls_in(ast.Module(body=tests[0].body, type_ignores=[]), local=False) if dotted(x.func) == "self.add_token"]
-        ok = len(add) == 1 and unparse(add[0].args[1]) in ("eval(token)", "{'True': True, 'False': False, 'None': None}[token]", "ast.literal_eval(token)")
+        tok = unparse(tests[0].test.left)
+        ok = len(add) == 1 and unparse(add[0].args[1]) in (f"eval({tok})", f"{{'True': True, 'False': False, 'None': None}}[{tok}]", f"ast.literal_eval({tok})")
     obl(rep, f, tests[0] if tests else f.node, "R12.5", ok, "True / False / None become the Python constants", "", "Python literal handling changed")
     f = prog.fn("scanner.Scanner.char")
     vals = [s for s in walk_local(f.node) if isinstance(s, ast.Assign) and unparse(s.value) == "self.code[self.start + 1:self.current - 1]"]
